@@ -188,25 +188,17 @@ fn has_at_lookahead(p: &str, d: &str, tp: &[Token], tw: &[Token]) -> bool {
             || tw.iter().any(|t| t.span.start < plen && matches!(t.kind, TokenKind::EmailAddress | TokenKind::Url)))
 }
 
-/// mechanism: `condense_spaces` advances its cursor twice after a merge; when the run of blank
-/// tokens directly before the paragraph break has 2 (mod 4) tokens, the token passed over is the
-/// break and the token then examined — and never considered as the start of a run — is the first
-/// token of D. If D starts with two or more blank tokens they are merged differently.
-fn has_spaces_skip(lp: &[Token], ld: &[Token]) -> bool {
-    let n = lp.len();
-    if n == 0 || !matches!(lp[n - 1].kind, TokenKind::Newline(_)) {
-        return false;
-    }
-    let k = lp[..n - 1].iter().rev().take_while(|t| matches!(t.kind, TokenKind::Space(_))).count();
-    let d = ld.iter().take_while(|t| matches!(t.kind, TokenKind::Space(_))).count();
-    k % 4 == 2 && d >= 2
-}
-
 pub fn eval_pair(p: &str, d: &str, with_k: bool, only_cfg: Option<usize>) -> PairOut {
     let mut out = PairOut { k: vec![], counts: vec![], monitors: vec![], fails: vec![], nontrivial: false };
     let whole = format!("{}{}", p, d);
     let plen = p.chars().count();
     let inp = |cfg: usize| json!({"P": p, "D": d, "cfg": CONFIGS[cfg]});
+    // ClsOK, the laws of the class tables `lex_append` assumes, on every character seen
+    {
+        let law3 = whole.chars().all(|c| !c.is_numeric() || (!c.is_ascii_alphabetic() && c != '+' && c != '-'));
+        let nl = !is_english_lingual('\n') && !'\n'.is_alphanumeric();
+        out.monitors.push(("ClsOK (newline neither lingual nor alphanumeric; a numeric character is not an ASCII letter or sign), every character seen".into(), law3 && nl));
+    }
     let dict = FstDictionary::curated();
     // ---- tokens of the three texts -------------------------------------------------------------
     let mut lexed: Vec<Option<Vec<Token>>> = vec![];
@@ -288,27 +280,29 @@ pub fn eval_pair(p: &str, d: &str, with_k: bool, only_cfg: Option<usize>) -> Pai
                 }
                 _ => false,
             };
-            // the hypotheses of the theorem `document_append`, on the real lexer tokens
-            if let (true, Some(lp), Some(ld)) = (lex_ok, &lexed[0], &lexed[1]) {
-                let break_tok = matches!(lp.last().map(|t| &t.kind), Some(TokenKind::Newline(k)) if *k >= 2);
-                let x = &lp[..lp.len().saturating_sub(1)];
-                let space_ok = x.is_empty()
-                    || !matches!(x[x.len() - 1].kind, TokenKind::Space(_))
-                    || ld.first().map_or(true, |t| !matches!(t.kind, TokenKind::Space(_)));
-                let no_quotes = !lp.iter().any(|t| matches!(t.kind, TokenKind::Punctuation(Punctuation::Quote(_))));
-                out.counts.push(format!("BreakTok:{}", break_tok));
-                out.counts.push(format!("SpaceOK:{}", space_ok));
-                if break_tok && space_ok && no_quotes {
-                    out.monitors.push(("document_append: BoundaryOK ∧ ExtLocal ∧ BreakTok ∧ SpaceOK ∧ NoQuotes(P) ⇒ DocAppend, on the real Document::new".into(), ok));
+            // the TEXT-level hypotheses of the theorem `document_append`
+            if let (true, Some(lp), Some(_ld)) = (lex_ok, &lexed[0], &lexed[1]) {
+                let pc: Vec<char> = p.chars().collect();
+                let k = pc.iter().rev().take_while(|c| **c == '\n').count();
+                let para_break_end = k >= 2; // a maximal run of ≥ 2 newlines ends P
+                let no_quote_chars = !pc.iter().any(|c| QUOTES.contains(c));
+                // ExtNoNl: no url / e-mail / hostname token of P contains a newline
+                let ext_no_nl = lp.iter().all(|t| {
+                    !matches!(t.kind, TokenKind::Url | TokenKind::EmailAddress | TokenKind::Hostname)
+                        || !pc[t.span.start.min(pc.len())..t.span.end.min(pc.len())].contains(&'\n')
+                });
+                out.monitors.push(("ExtNoNl (no url/e-mail/hostname token of P contains a newline)".into(), ext_no_nl));
+                out.counts.push(format!("ParaBreakEnd:{}", para_break_end));
+                if para_break_end && no_quote_chars && ext_no_nl {
+                    // consequences proved in Lean from the text: the last lexer token of P is Newline(k), no quote token
+                    let break_tok = matches!(lp.last().map(|t| &t.kind), Some(TokenKind::Newline(n)) if *n == k);
+                    let no_quotes = !lp.iter().any(|t| matches!(t.kind, TokenKind::Punctuation(Punctuation::Quote(_))));
+                    out.monitors.push(("parsePlain_ends_break / parsePlain_noQuotes on the real lexer (P ends in k ≥ 2 newlines ⇒ last token Newline(k); no quote characters ⇒ no quote token)".into(), break_tok && no_quotes));
+                    out.monitors.push(("document_append: P ends in ≥2 newlines ∧ no quote character in P ∧ D does not start with a newline ∧ ExtLocal ∧ ExtNoNl ⇒ DocAppend, on the real Document::new".into(), ok));
                 }
             }
             if lex_ok {
-                let skip = match (&lexed[0], &lexed[1]) { (Some(lp), Some(ld)) => has_spaces_skip(lp, ld), _ => false };
-                if ok || !skip {
-                    out.monitors.push(("DocAppend on the real passes (lexer tokens append ⇒ document tokens append, quote twins shifted)".into(), ok));
-                } else {
-                    out.monitors.push(("c12-condense-spaces-skip".into(), false));
-                }
+                out.monitors.push(("DocAppend on the real passes (lexer tokens append ⇒ document tokens append, quote twins shifted)".into(), ok));
             }
         }
         if td.iter().any(|t| matches!(t.kind, TokenKind::Punctuation(Punctuation::Quote(_)))) {
@@ -337,8 +331,7 @@ pub fn eval_pair(p: &str, d: &str, with_k: bool, only_cfg: Option<usize>) -> Pai
                     (Some(lp_), Some(lw_)) => has_at_lookahead(p, d, lp_, lw_),
                     _ => false,
                 };
-                let skip = match (&lexed[0], &lexed[1]) { (Some(lp_), Some(ld_)) => has_spaces_skip(lp_, ld_), _ => false };
-                (if at { "c12-lex-at-lookahead".to_string() } else if skip { "c12-condense-spaces-skip".to_string() } else { "c12-tokens-differ".to_string() }, vec![])
+                (if at { "c12-lex-at-lookahead".to_string() } else { "c12-tokens-differ".to_string() }, vec![])
             } else {
                 let rules = responsible_rules(p, d);
                 let class = if what == "order" && rules.is_empty() {
@@ -427,7 +420,7 @@ pub fn run(ctx: &Ctx) {
     // witnesses of the recorded finding `c12-lex-at-lookahead`
     pairs.push(("Write to zqxv@example.com today.\n\n".to_string(), "Ping @alice.".to_string()));
     pairs.push(("See http://example.com/zqxv for details.\n\n".to_string(), "Mail me @home.".to_string()));
-    // witnesses of the recorded finding `c12-condense-spaces-skip` (and neighbours that must pass)
+    // regression witnesses of the REPAIRED finding `c12-condense-spaces-skip` (128f7ba) and neighbours: all must pass
     for (p, d) in [
         ("This is fine. \t\n\n", " \tfoo bar."), ("This is fine.\t \n\n", "\t \tfoo bar."), ("This is fine. \t \t \t\n\n", " \tfoo."),
         ("This is fine. \t \n\n", " \tfoo bar."), ("This is fine. \n\n", " \tfoo bar."), ("This is fine. \t\n\n", " foo bar."), ("This is fine. \t \t\n\n", " \tfoo bar."),
@@ -502,7 +495,7 @@ pub fn run(ctx: &Ctx) {
         merge(&mut sess, o, &key);
     }
     sess.finish(
-        "pairs (P, D): P = 1–3 rule-test sentences free of quotation marks ending in [.!?] followed by a paragraph break (\\n\\n, \\n\\n\\n, space+\\n\\n); D = a rule-test sentence, the same with a curated opening (newlines, blank, digits, ordinal, @, :, lower case, quotes, apostrophe, punctuation, regexish, hex, decade, e.g., et al., etc.), lower-cased first letter, spice + prose, or a mutated / malformed text of the shared generator; plus a corpus of boundary witnesses and a small-scope grid (5 separators × 25 openings × 3 tails). K: PlainEnglish::parse (`lex`), Document::new (`doc`) and iter_paragraphs / iter_sentences / iter_chunks (`pieces`) on P, D and P+D against the Lean models. O: lint(P+D) = lint(P) ++ shift(lint(D)) as multisets of (span, kind, message, suggestions, priority), in the same order within each paragraph, none straddling the break; every rule on (chunk cache defeated by a config nonce) and curated defaults (long-lived caching group). Monitors: ExtLocal, lex_append, DocAppend, and the theorem document_append with its decidable hypotheses (BreakTok, SpaceOK, NoQuotes) on the real token streams. Non-trivial = P has ≥8 and D ≥4 document tokens; distinct by (P, D).",
+        "pairs (P, D): P = 1–3 rule-test sentences free of quotation marks ending in [.!?] followed by a paragraph break (\\n\\n, \\n\\n\\n, space+\\n\\n); D = a rule-test sentence, the same with a curated opening (newlines, blank, digits, ordinal, @, :, lower case, quotes, apostrophe, punctuation, regexish, hex, decade, e.g., et al., etc.), lower-cased first letter, spice + prose, or a mutated / malformed text of the shared generator; plus a corpus of boundary witnesses and a small-scope grid (5 separators × 25 openings × 3 tails). K: PlainEnglish::parse (`lex`), Document::new (`doc`) and iter_paragraphs / iter_sentences / iter_chunks (`pieces`) on P, D and P+D against the Lean models. O: lint(P+D) = lint(P) ++ shift(lint(D)) as multisets of (span, kind, message, suggestions, priority), in the same order within each paragraph, none straddling the break; every rule on (chunk cache defeated by a config nonce) and curated defaults (long-lived caching group). Monitors: ClsOK (class-table laws on every character seen), ExtLocal, ExtNoNl, lex_append, DocAppend, parsePlain_ends_break/noQuotes, and the theorem document_append with its text-level hypotheses on the real token streams. Non-trivial = P has ≥8 and D ≥4 document tokens; distinct by (P, D).",
         false,
         json!({"configs": CONFIGS, "pairs": pairs.len()}),
     );
